@@ -156,9 +156,30 @@ def run(facts, rep, tier):
     fns = sorted({h["fn"] for h, _, _ in map_sites})
     rep.floor("C14.D1", "readers of settings.map_type", len(fns), 2)
     EXC = r"\(\(\S*\.id_to_entry\.get\(.*?~Map\.0\)\.expect\(\"[^\"]*\"\)\.details Eq TypeEntryDetails::String\) And \(\S*\.id_to_entry\.get\(.*?~Map\.1\)\.expect\(\"[^\"]*\"\)\.details Eq TypeEntryDetails::JsonValue\)\)"
+    from lib import PCanon
+    EXC_P = r"\(\(\S*\.id_to_entry\.get\((\$P\d)\)\.expect\(\"[^\"]*\"\)\.details Eq TypeEntryDetails::String\) And \(\S*\.id_to_entry\.get\((\$P\d)\)\.expect\(\"[^\"]*\"\)\.details Eq TypeEntryDetails::JsonValue\)\)"
     for h, n, anc in map_sites:
         cnm = Canon(c, h, 5)
         arms = [g for g in guards(anc, n) if g[0] == "arm" and "TypeEntryDetails::Map" in g[1]]
+        if not arms:
+            # the read sits in a helper: every call of the helper must come from a Map arm and hand over that arm's key and value ids
+            callers = [(hh, x, xa) for hh in c.user_fns() for x, xa in walk(hh["body"]) if x.get("k") in ("call", "mcall") and x.get("fn") == h["fn"]]
+            pc = PCanon(c, h, 5)
+            ifs = [(x, re.fullmatch(EXC_P, pc.r(x["cond"]))) for x, _ in nodes(h["body"], "if")]
+            ifs = [(x, m_) for x, m_ in ifs if m_]
+            okc = bool(callers) and bool(ifs)
+            for hh, x, xa in callers:
+                in_map = [g for g in guards(xa, x) if g[0] in ("arm", "if") and "TypeEntryDetails::Map" in g[1]]
+                cnc = Canon(c, hh, 4)
+                args = [cnc.r(a_) for a_ in (([x["recv"]] if x.get("k") == "mcall" else []) + list(x["args"]))]
+                if ifs:
+                    ki, vi = int(ifs[0][1].group(1)[2:]), int(ifs[0][1].group(2)[2:])
+                    okc = okc and bool(in_map) and ki < len(args) and vi < len(args) and args[ki].endswith("~Map.0") and args[vi].endswith("~Map.1")
+            rep.ob("C14.D1", "map-arm-reads-setting:%s" % h["fn"], okc, "read in a helper that is only called from Map arms with that arm's key and value ids" if okc else "settings.map_type is read outside a Map arm (and not in a helper called from Map arms only)", None)
+            ok = bool(ifs) and "serde_json" in " ".join((facts.template_at(q["sp"]) or {}).get("text", "") for q, _ in walk(ifs[0][0]["then"]) if q.get("k") == "macro")
+            ok2 = bool(ifs) and ifs[0][0].get("else") is not None and any("settings.map_type" in cnm.r(x) for x, _ in walk(ifs[0][0]["else"]) if x.get("k") in ("path", "field"))
+            rep.ob("C14.D1", "map-exception-shared:%s" % h["fn"], bool(ok and ok2), "String->JsonValue => serde_json::Map, otherwise the configured map type" if ok and ok2 else "the helper %s does not use the configured map type except for String->JsonValue" % h["fn"], (ifs[0][0] if ifs else {}).get("sp"))
+            continue
         rep.ob("C14.D1", "map-arm-reads-setting:%s" % h["fn"], bool(arms), "read inside the Map arm `%s`" % (arms[0][1][:60] if arms else "?"), None)
         arm_body = None
         for a in reversed(anc):
